@@ -142,9 +142,12 @@ def gen_scripts(ctx, rng, n):
         # one request per peer at most while another to the same peer is outstanding is fine (invoke ids differ)
         iocb = rng.random() < 0.4
         slow = [p_ for p_ in peers if p_ not in silent and rng.random() < 0.4]
+        netopt = {}
+        if rng.random() < 0.15:
+            netopt = {"net_number": rng.choice([1, 7, 65534]), "spell": rng.choice(["plain", "net-fresh", "net-reuse"])}
         out.append({"peers": peers, "silent": silent, "slow": slow, "script": script,
-                    "a": {"max_apdu": 128, "retries": rng.choice([0, 1, 1, 3]),
-                          "seg": rng.choice(["segmentedBoth", "noSegmentation", "segmentedReceive"])}, "iocb": iocb,
+                    "a": dict({"max_apdu": 128, "retries": rng.choice([0, 1, 1, 3]),
+                               "seg": rng.choice(["segmentedBoth", "noSegmentation", "segmentedReceive"])}, **netopt), "iocb": iocb,
                     # requests issued from inside completion callbacks (IOCB only)
                     "chain": [rng.choice(peers) for _ in range(rng.randrange(0, 4))] if iocb else []})
     # three IOCBs for one peer, the second ends at once in a local abort (too long, client cannot segment)
@@ -161,6 +164,13 @@ def gen_scripts(ctx, rng, n):
     for silent in ([], [40]):
         out.append({"peers": [30, 40], "silent": silent, "iocb": True, "a": {"max_apdu": 128, "retries": 1},
                     "chain": [30, 30], "script": [["req", 30], ["run", 0.0], ["req", 30], ["req", 40], ["run", 0.0], ["req", 30]]})
+    # the network layer knows the number of its network and the application writes its peers WITH that number
+    # ("1:30" on network 1; a fresh Address per request, or one object reused): IOCB and direct
+    for iocb in (False, True):
+        for spell in ("plain", "net-fresh", "net-reuse"):
+            out.append({"peers": [30, 40], "silent": [40], "iocb": iocb,
+                        "a": {"max_apdu": 128, "retries": 1, "net_number": 1, "spell": spell},
+                        "script": [["req", 30], ["req", 30], ["req", 40], ["run", 0.0], ["req", 30], ["unconf", 30], ["req", 30]]})
     # long histories on ONE stack: more than 256 (and more than 512) requests, so that every
     # per-stack counter (invoke id) wraps; answered at once, a few to a silent peer in between
     for iocb in (False, True):
